@@ -7,9 +7,9 @@
   semantic ("the predicates of this node do not raise on what its gate lets through") and are
   discharged below for the typed use of the built-in predicates.
 
-  `_partial`: sets, n-tuples, maps and record validators are not in `Safe` (their steps are modelled and
-  compared with the real code, but the lifting is not proved), and *termination* (that a result is
-  produced at all) is proved only for the recursive example of C05.  The code itself violates the
+  `_partial`: the side conditions of maps and records are stated on their container level (`mapPre`,
+  `recPre` do not raise) rather than discharged from the configuration, and *termination* (that a result
+  is produced at all) is proved only for the recursive example of C05.  The code itself violates the
   unrestricted statement (findings D2, D3: Decimal NaN / naive-vs-aware datetimes under Min / Max).
 -/
 import KodaModel.Properties.C02
@@ -169,6 +169,32 @@ theorem seqStep_clean (k : SeqKind) (hk : k ≠ .set) (o : Oracle) (m : Mode) (v
       · simp
       · first | simp | (split <;> simp)
 
+/-- sets: additionally the element payloads must be hashable (else `set.add` raises TypeError) -/
+theorem seqStep_clean_set (o : Oracle) (m : Mode) (vid : Nat) (ps aps : List Pred)
+    (c : Option CoerceK) {ev : Ev1} (h : Clean ev) (hh : HashablePayloads ev)
+    (hp : ∀ x r, seqPre .set o m vid ps aps c x = .inl r → ∀ e, r.1 ≠ .raised e) :
+    Clean (seqStep .set o m vid ps aps c ev) := by
+  intro x r t hr e
+  cases hpre : seqPre .set o m vid ps aps c x with
+  | inl r' =>
+    simp only [seqStep, hpre, Option.some.injEq] at hr
+    have := hp x r' hpre e
+    rw [hr] at this; exact this
+  | inr q =>
+    obtain ⟨y, xs, t0⟩ := q
+    rw [seqStep_inr hpre ev (fun _ => hh)] at hr
+    cases hl : loopItems ev false xs 0 true with
+    | none => simp [hl] at hr
+    | some rr =>
+      simp only [hl, Option.map_some, Option.some.injEq, Prod.mk.injEq] at hr
+      have hnone := loopItems_clean h _ _ _ _ hl
+      rw [← hr.1]
+      unfold finishSeq
+      simp only [hnone]
+      split
+      · simp
+      · simp
+
 /-- the container level of a sequence validator: no async predicates in sync mode, predicates that do
     not raise on what the gate lets through, and the gate lets only iterables through -/
 theorem seqPre_clean (k : SeqKind) (o : Oracle) (m : Mode) (vid : Nat) (ps aps : List Pred) (c : Option CoerceK)
@@ -193,6 +219,251 @@ theorem seqPre_clean (k : SeqKind) (o : Oracle) (m : Mode) (vid : Nat) (ps aps :
         · split at hr
           · rename_i hi; rw [hi] at h2; simp at h2
           · simp at hr
+
+
+/-! ### n-tuples, maps, records -/
+
+
+theorem loopFields_clean : ∀ (evs : List Ev1) (xs : List PyVal) (i : Nat) (r : LoopR),
+    (∀ ev ∈ evs, Clean ev) → loopFields evs xs i = some r → r.r = none := by
+  intro evs
+  induction evs with
+  | nil => intro xs i r _ h; simp [loopFields] at h; subst h; rfl
+  | cons ev evs ih =>
+    intro xs i r hc h
+    cases xs with
+    | nil => simp [loopFields] at h; subst h; rfl
+    | cons x xs =>
+      simp only [loopFields] at h
+      cases hx : ev x with
+      | none => simp [hx] at h
+      | some p =>
+        obtain ⟨out, t⟩ := p
+        rw [hx] at h
+        cases out with
+        | raised e => exact absurd rfl (hc ev (by simp) x _ _ hx e)
+        | valid w =>
+          simp only at h
+          cases hl : loopFields evs xs (i + 1) with
+          | none => simp [hl] at h
+          | some r' =>
+            simp only [hl, Option.some.injEq] at h; subst h
+            exact ih xs (i + 1) r' (fun e' he' => hc e' (by simp [he'])) hl
+        | invalid e =>
+          simp only at h
+          cases hl : loopFields evs xs (i + 1) with
+          | none => simp [hl] at h
+          | some r' =>
+            simp only [hl, Option.some.injEq] at h; subst h
+            exact ih xs (i + 1) r' (fun e' he' => hc e' (by simp [he'])) hl
+
+theorem runObjCheck_clean (oc : Option ObjCheck) (vid : Nat) (obj : PyVal) (e : Exn) :
+    (runObjCheck oc vid obj).1 ≠ .raised e := by
+  unfold runObjCheck
+  cases oc with
+  | none => simp
+  | some c => simp only; split <;> simp
+
+/-- n-tuples: clean slot validators, and a gate that lets only sized iterables through -/
+theorem ntupleStep_clean (o : Oracle) (vid : Nat) (oc : Option ObjCheck) (c : Option CoerceK) (lp : Nat)
+    (evs : List Ev1) (hc : ∀ ev ∈ evs, Clean ev)
+    (hgate : ∀ x y t, gate o .tuple .list c x = .acc y t → (pyLen y).isSome = true ∧ (pyIter y).isSome = true) :
+    Clean (ntupleStep o vid oc c lp evs) := by
+  intro x r t hr e
+  unfold ntupleStep at hr
+  cases hpre : ntuplePre o vid c lp evs.length x with
+  | inl r' =>
+    simp only [hpre, Option.some.injEq] at hr
+    unfold ntuplePre at hpre
+    split at hpre
+    · rename_i e' t' hg; exact absurd hg (gate_noexn _ _ _ _ _ _ _)
+    · simp only [Sum.inl.injEq] at hpre; rw [← hpre] at hr; cases hr; simp
+    · rename_i y t0 hg
+      obtain ⟨h1, h2⟩ := hgate x y t0 hg
+      split at hpre
+      · rename_i hl; rw [hl] at h1; simp at h1
+      · split at hpre
+        · simp only [Sum.inl.injEq] at hpre; rw [← hpre] at hr; cases hr; simp
+        · split at hpre
+          · rename_i hi; rw [hi] at h2; simp at h2
+          · simp at hpre
+  | inr q =>
+    obtain ⟨y, xs, t0⟩ := q
+    simp only [hpre] at hr
+    cases hl : loopFields evs xs 0 with
+    | none => simp [hl] at hr
+    | some rr =>
+      simp only [hl, Option.some.injEq] at hr
+      have hnone := loopFields_clean evs xs 0 rr hc hl
+      have : (ntupleFinish vid oc y t0 rr).1 = r := by rw [hr]
+      rw [← this]
+      unfold ntupleFinish
+      simp only [hnone]
+      split
+      · simp
+      · exact runObjCheck_clean oc vid _ e
+
+theorem mapLoop_clean (evk evv : Ev1) (hk : Clean evk) (hv : Clean evv)
+    (hh : ∀ x w t, evk x = some (.valid w, t) → hashable w = true) :
+    ∀ (kvs acc : List (PyVal × PyVal)) (r : MapR), mapLoop evk evv kvs acc = some r → r.r = none := by
+  intro kvs
+  induction kvs with
+  | nil => intro acc r h; simp [mapLoop] at h; subst h; rfl
+  | cons p rest ih =>
+    intro acc r h
+    obtain ⟨k, v⟩ := p
+    simp only [mapLoop] at h
+    cases hkk : evk k with
+    | none => simp [hkk] at h
+    | some pk =>
+      obtain ⟨ko, tk⟩ := pk
+      cases ko with
+      | raised e => exact absurd rfl (hk k _ _ hkk e)
+      | valid kw =>
+        simp only [hkk] at h
+        cases hvv : evv v with
+        | none => simp [hvv] at h
+        | some pv =>
+          obtain ⟨vo, tv⟩ := pv
+          cases vo with
+          | raised e => exact absurd rfl (hv v _ _ hvv e)
+          | valid vw =>
+            simp only [hvv, hh k kw tk hkk, Bool.not_true, Bool.false_eq_true, if_false] at h
+            cases hl : mapLoop evk evv rest (dictSet acc kw vw) with
+            | none => simp [hl] at h
+            | some r' => simp only [hl, Option.some.injEq] at h; subst h; exact ih _ r' hl
+          | invalid ev' =>
+            simp only [hvv] at h
+            cases hl : mapLoop evk evv rest acc with
+            | none => simp [hl] at h
+            | some r' => simp only [hl, Option.some.injEq] at h; subst h; exact ih _ r' hl
+      | invalid ke =>
+        simp only [hkk] at h
+        cases hvv : evv v with
+        | none => simp [hvv] at h
+        | some pv =>
+          obtain ⟨vo, tv⟩ := pv
+          cases vo with
+          | raised e => exact absurd rfl (hv v _ _ hvv e)
+          | valid vw =>
+            simp only [hvv] at h
+            cases hl : mapLoop evk evv rest acc with
+            | none => simp [hl] at h
+            | some r' => simp only [hl, Option.some.injEq] at h; subst h; exact ih _ r' hl
+          | invalid ev' =>
+            simp only [hvv] at h
+            cases hl : mapLoop evk evv rest acc with
+            | none => simp [hl] at h
+            | some r' => simp only [hl, Option.some.injEq] at h; subst h; exact ih _ r' hl
+
+/-- maps: clean key and value validators, hashable key payloads, a container level that does not raise -/
+theorem mapStep_clean (o : Oracle) (m : Mode) (vid : Nat) (ps aps : List Pred) (c : Option CoerceK)
+    (evk evv : Ev1) (hk : Clean evk) (hv : Clean evv)
+    (hh : ∀ x w t, evk x = some (.valid w, t) → hashable w = true)
+    (hp : ∀ x r, mapPre o m vid ps aps c x = .inl r → ∀ e, r.1 ≠ .raised e) :
+    Clean (mapStep o m vid ps aps c evk evv) := by
+  intro x r t hr e
+  unfold mapStep at hr
+  cases hpre : mapPre o m vid ps aps c x with
+  | inl r' =>
+    simp only [hpre, Option.some.injEq] at hr
+    have := hp x r' hpre e
+    rw [hr] at this; exact this
+  | inr q =>
+    obtain ⟨y, kvs, t0⟩ := q
+    simp only [hpre] at hr
+    cases hl : mapLoop evk evv kvs [] with
+    | none => simp [hl] at hr
+    | some rr =>
+      simp only [hl, Option.some.injEq] at hr
+      have hnone := mapLoop_clean evk evv hk hv hh kvs [] rr hl
+      have : (mapFinish vid y t0 rr).1 = r := by rw [hr]
+      rw [← this]
+      unfold mapFinish
+      simp only [hnone]
+      split <;> simp
+
+theorem recLoop_clean (vid : Nat) (dv : PyVal) (data : List (PyVal × PyVal)) :
+    ∀ (evs : List Ev1) (ks : List PyVal) (reqs : List Bool) (r : RecR),
+      (∀ ev ∈ evs, Clean ev) → recLoop vid dv data evs ks reqs = some r → r.r = none := by
+  intro evs
+  induction evs with
+  | nil => intro ks reqs r _ h; simp [recLoop] at h; subst h; rfl
+  | cons ev evs ih =>
+    intro ks reqs r hc h
+    cases ks with
+    | nil => simp [recLoop] at h; subst h; rfl
+    | cons k ks =>
+      cases reqs with
+      | nil => simp [recLoop] at h; subst h; rfl
+      | cons req reqs =>
+        have hc' : ∀ e' ∈ evs, Clean e' := fun e' he' => hc e' (by simp [he'])
+        simp only [recLoop] at h
+        cases hg : dictGet data k with
+        | none =>
+          simp only [hg] at h
+          cases hl : recLoop vid dv data evs ks reqs with
+          | none => simp [hl] at h
+          | some r' =>
+            simp only [hl] at h
+            have := ih ks reqs r' hc' hl
+            split at h <;> (simp only [Option.some.injEq] at h; subst h; exact this)
+        | some xv =>
+          simp only [hg] at h
+          cases hx : ev xv with
+          | none => simp [hx] at h
+          | some p =>
+            obtain ⟨out, t⟩ := p
+            rw [hx] at h
+            cases out with
+            | raised e => exact absurd rfl (hc ev (by simp) xv _ _ hx e)
+            | valid w =>
+              simp only at h
+              cases hl : recLoop vid dv data evs ks reqs with
+              | none => simp [hl] at h
+              | some r' => simp only [hl, Option.some.injEq] at h; subst h; exact ih ks reqs r' hc' hl
+            | invalid e =>
+              simp only at h
+              cases hl : recLoop vid dv data evs ks reqs with
+              | none => simp [hl] at h
+              | some r' => simp only [hl, Option.some.injEq] at h; subst h; exact ih ks reqs r' hc' hl
+
+theorem runAObjCheck_clean (m : Mode) (aoc : Option ObjCheck) (vid : Nat) (obj : PyVal) (e : Exn) :
+    (runAObjCheck m aoc vid obj).1 ≠ .raised e := by
+  unfold runAObjCheck
+  split
+  · split <;> simp
+  · simp
+
+/-- records (all five kinds): clean field validators and a container level that does not raise -/
+theorem recordStep_clean (o : Oracle) (m : Mode) (vid : Nat) (cfg : RecCfg) (evs : List Ev1)
+    (hc : ∀ ev ∈ evs, Clean ev)
+    (hp : ∀ x r, recPre o m vid cfg x = .inl r → ∀ e, r.1 ≠ .raised e) :
+    Clean (recordStep o m vid cfg evs) := by
+  intro x r t hr e
+  unfold recordStep at hr
+  cases hpre : recPre o m vid cfg x with
+  | inl r' =>
+    simp only [hpre, Option.some.injEq] at hr
+    have := hp x r' hpre e
+    rw [hr] at this; exact this
+  | inr q =>
+    obtain ⟨y, data, t0⟩ := q
+    simp only [hpre] at hr
+    cases hl : recLoop vid y data evs cfg.keys cfg.reqs with
+    | none => simp [hl] at hr
+    | some rr =>
+      simp only [hl, Option.some.injEq] at hr
+      have hnone := recLoop_clean vid y data evs cfg.keys cfg.reqs rr hc hl
+      have : (recFinish m vid cfg y t0 rr).1 = r := by rw [hr]
+      rw [← this]
+      unfold recFinish
+      simp only [hnone]
+      split
+      · simp
+      · split
+        · exact runAObjCheck_clean m cfg.aoc vid _ e
+        · exact runObjCheck_clean cfg.oc vid _ e
 
 
 /-! ### leaves -/
@@ -252,6 +523,20 @@ inductive Safe (o : Oracle) (m : Mode) : V → Prop
   | utuple (vid item ps aps c) : (m = .sync → aps = []) →
       (∀ x y t, gate o .tuple .list c x = .acc y t → (contPreds m ps aps y).2.2 = none ∧ (pyIter y).isSome = true) →
       Safe o m item → Safe o m (.utuple vid item ps aps c)
+  | set (vid item ps aps c) : (m = .sync → aps = []) →
+      (∀ x y t, gate o .set .set c x = .acc y t → (contPreds m ps aps y).2.2 = none ∧ (pyIter y).isSome = true) →
+      (∀ n env x w t, run o env m n item x = some (.valid w, t) → hashable w = true) →
+      Safe o m item → Safe o m (.set vid item ps aps c)
+  | ntuple (vid fs oc c lp) :
+      (∀ x y t, gate o .tuple .list c x = .acc y t → (pyLen y).isSome = true ∧ (pyIter y).isSome = true) →
+      (∀ v ∈ fs, Safe o m v) → Safe o m (.ntuple vid fs oc c lp)
+  | map (vid kv vv ps aps c) :
+      (∀ x r, mapPre o m vid ps aps c x = .inl r → ∀ e, r.1 ≠ .raised e) →
+      (∀ n env x w t, run o env m n kv x = some (.valid w, t) → hashable w = true) →
+      Safe o m kv → Safe o m vv → Safe o m (.map vid kv vv ps aps c)
+  | record (vid cfg vs) :
+      (∀ x r, recPre o m vid cfg x = .inl r → ∀ e, r.1 ≠ .raised e) →
+      (∀ v ∈ vs, Safe o m v) → Safe o m (.record vid cfg vs)
   | union (vid vs) : (∀ v ∈ vs, Safe o m v) → Safe o m (.union vid vs)
   | optional (vid nv inner) : Safe o m nv → Safe o m inner → Safe o m (.optional vid nv inner)
   | maybe (vid inner) : Safe o m inner → Safe o m (.maybe vid inner)
@@ -299,6 +584,25 @@ theorem C01_never_raises_partial (o : Oracle) (m : Mode) (env : Nat → V) (henv
     | utuple vid item ps aps c h1 h2 h3 =>
       simp only [run]
       exact seqStep_clean .utuple (by decide) o m vid ps aps c (ih item h3) (seqPre_clean .utuple o m vid ps aps c h1 h2)
+    | set vid item ps aps c h1 h2 h3 h4 =>
+      simp only [run]
+      exact seqStep_clean_set o m vid ps aps c (ih item h4) (fun x w t hx => h3 n env x w t hx)
+        (seqPre_clean .set o m vid ps aps c h1 h2)
+    | ntuple vid fs oc c lp h1 h2 =>
+      simp only [run]
+      apply ntupleStep_clean o vid oc c lp _ _ h1
+      intro ev hev
+      obtain ⟨v, hv, rfl⟩ := List.mem_map.1 hev
+      exact ih v (h2 v hv)
+    | map vid kv vv ps aps c h1 h2 h3 h4 =>
+      simp only [run]
+      exact mapStep_clean o m vid ps aps c _ _ (ih kv h3) (ih vv h4) (fun x w t hx => h2 n env x w t hx) h1
+    | record vid cfg vs h1 h2 =>
+      simp only [run]
+      apply recordStep_clean o m vid cfg _ _ h1
+      intro ev hev
+      obtain ⟨v, hv, rfl⟩ := List.mem_map.1 hev
+      exact ih v (h2 v hv)
     | union vid vs h1 =>
       simp only [run]
       apply unionStep_clean
